@@ -10,7 +10,7 @@ VERIF = os.path.dirname(os.path.dirname(os.path.abspath(__file__)))
 sys.path.insert(0, os.path.join(VERIF, 'tools'))
 import registry
 
-def run_seed(seed, props, tier):
+def run_seed(seed, props, tier, sub=''):
     d = '/tmp/se_' + seed
     subprocess.run(['git', '-C', '/repo', 'worktree', 'remove', '--force', d], capture_output=True)
     shutil.rmtree(d, ignore_errors=True)
@@ -19,7 +19,7 @@ def run_seed(seed, props, tier):
         return seed, {'error': r.stderr[-300:]}
     out = {}
     try:
-        r = subprocess.run(['git', '-C', d, 'apply', os.path.join(VERIF, 'seeded', seed, 'patch.diff')], capture_output=True, text=True)
+        r = subprocess.run(['git', '-C', d, 'apply', os.path.join(VERIF, 'seeded', sub, seed, 'patch.diff')], capture_output=True, text=True)
         if r.returncode != 0:
             return seed, {'error': 'patch does not apply: ' + r.stderr[-300:]}
         for p in props:
@@ -42,6 +42,8 @@ def run_seed(seed, props, tier):
 
 def main():
     args = sys.argv[1:]
+    if '--harmless' in args:
+        return harmless(args)
     all_props = '--all' in args
     jobs = int(args[args.index('--jobs') + 1]) if '--jobs' in args else 2
     tier = args[args.index('--tier') + 1] if '--tier' in args else 'quick'
@@ -70,6 +72,23 @@ def main():
             print('%s: %s' % (s, {p: (v.get('exit') if isinstance(v, dict) else v) for p, v in out.items()}), 'CAUGHT by ' + ','.join(caught) if caught else 'not caught', flush=True)
             json.dump(results, open(res_path, 'w'), indent=1, sort_keys=True)
     json.dump(results, open(res_path, 'w'), indent=1, sort_keys=True)
+
+def harmless(args):
+    """Changes that do NOT break any property (seeded/harmless/*): every listed check must stay at exit 0."""
+    tier = 'quick'
+    base = os.path.join(VERIF, 'seeded', 'harmless')
+    res_path = os.path.join(base, 'RESULTS.json')
+    results = {}
+    for s in sorted(os.listdir(base)):
+        if not os.path.isdir(os.path.join(base, s)):
+            continue
+        meta = json.load(open(os.path.join(base, s, 'meta.json')))
+        _, out = run_seed(s, [p for p in meta['check'] if p in registry.PROPS], tier, sub='harmless')
+        results[s] = out
+        alarms = [p for p, v in out.items() if isinstance(v, dict) and v.get('exit') == 1]
+        print('%s: %s %s' % (s, {p: (v.get('exit') if isinstance(v, dict) else v) for p, v in out.items()}, 'FALSE ALARM in ' + ','.join(alarms) if alarms else 'no alarm'), flush=True)
+        json.dump(results, open(res_path, 'w'), indent=1, sort_keys=True)
+
 
 if __name__ == '__main__':
     main()
